@@ -14,11 +14,11 @@ RULE = ("history = up to 40 operations on two real EquivalenceRelation objects: 
 def check(tier, seed):
     q = tier == "quick"
     plans = [
-        dict(flavour="serial", label="serial", args=["--threads", 3, "--ops", 40, "--range", 16], total=6000 if q else 300000),
-        dict(flavour="serial", label="serial-small", args=["--threads", 3, "--ops", 12, "--range", 5], total=8000 if q else 400000),
-        dict(flavour="free", label="free", args=["--threads", 8, "--ops", 60, "--range", 40], total=3000 if q else 100000, chunk=188, timeout=600),
-        dict(flavour="asan", label="free-asan", args=["--threads", 4, "--ops", 40, "--range", 20], total=1200 if q else 40000, chunk=75, timeout=900),
-        dict(flavour="tsan", label="free-tsan", args=["--threads", 4, "--ops", 40, "--range", 20], total=600 if q else 20000, chunk=38, timeout=900),
+        dict(flavour="serial", label="serial", args=["--threads", 3, "--ops", 40, "--range", 16], total=6000 if q else 60000),
+        dict(flavour="serial", label="serial-small", args=["--threads", 3, "--ops", 12, "--range", 5], total=8000 if q else 80000),
+        dict(flavour="free", label="free", args=["--threads", 8, "--ops", 60, "--range", 40], total=3000 if q else 30000, chunk=188, timeout=600),
+        dict(flavour="asan", label="free-asan", args=["--threads", 4, "--ops", 40, "--range", 20], total=1200 if q else 12000, chunk=75, timeout=900),
+        dict(flavour="tsan", label="free-tsan", args=["--threads", 4, "--ops", 40, "--range", 20], total=600 if q else 6000, chunk=38, timeout=900),
     ]
     res = run_ds("C28", "h_eqrel", tier, seed, plans, RULE)
     res.nontrivial = set(range(res.evaluations))
